@@ -25,6 +25,9 @@ inductive Kind where
 structure GObj where
   parts : List Bytes
   kind  : Kind
+  /-- assembled in place by CompleteMultipartUpload (see `Obj.oneBased`); only matters for which
+  appends the code refuses -/
+  oneBased : Bool := false
   deriving Repr
 
 def GObj.content (g : GObj) : Bytes := g.parts.flatten
@@ -63,6 +66,7 @@ structure GUpload where
   deriving Repr
 
 structure GState where
+  versioned : Bool := false
   objects : List (Nat × GObj) := []
   uploads : List (Nat × GUpload) := []
   deriving Repr
@@ -98,10 +102,15 @@ def kindOf : CType → Kind
   | .composite => .multiComposite
   | _ => .multiFull
 
+def gAppendCollides (versioned : Bool) (old : Option GObj) : Bool :=
+  !versioned && (match old with
+    | some o => o.oneBased && !o.parts.isEmpty
+    | none => false)
+
 /-- The spec's transition: what each request does to contents, and what it answers. -/
 def gstep (H : Hashes) (strict : Bool) (g : GState) : BOp → GState × Out
   | .put key body input =>
-    let o : GObj := ⟨[body], .single⟩
+    let o : GObj := ⟨[body], .single, false⟩
     if badDigest strict input (specVals H o) then (g, .err .badDigest) else
     ({ g with objects := setKey key o g.objects }, .ok (specVals H o) none none)
   | .create uid key ct =>
@@ -129,25 +138,29 @@ def gstep (H : Hashes) (strict : Bool) (g : GState) : BOp → GState × Out
     | none => (g, .err .noSuchUpload)
     | some u =>
       if ¬ contiguousBodies 1 u.parts then (g, .err .invalidSequence) else
-      let o : GObj := ⟨u.parts.map (·.2), kindOf u.ctype⟩
+      let o : GObj := ⟨u.parts.map (·.2), kindOf u.ctype, true⟩
       if badDigest strict input (specVals H o) then (g, .err .badDigest) else
-      ({ objects := setKey u.key o g.objects, uploads := remove uid g.uploads },
+      ({ g with objects := setKey u.key o g.objects, uploads := remove uid g.uploads },
         .ok (specVals H o) (some u.ctype) none)
   | .append key body input =>
     if badDigest strict input (digestsOf H body).values then (g, .err .badDigest) else
+    -- a refusal of the code as it is (a defect of AppendObject, not of the values): see
+    -- `appendCollides` in the model
+    if gAppendCollides g.versioned (lookup key g.objects) then (g, .err .internal) else
     let oldParts := match lookup key g.objects with | some o => o.parts | none => []
-    let o : GObj := ⟨oldParts ++ [body], .appended⟩
+    let o : GObj := ⟨oldParts ++ [body], .appended, false⟩
     ({ g with objects := setKey key o g.objects },
       .ok { etag := (specVals H o).etag } none (some o.content.length))
   | .copy src dst =>
     match lookup src g.objects with
     | none => (g, .err .noSuchKey)
-    | some so => ({ g with objects := setKey dst so g.objects }, .ok { etag := (specVals H so).etag } none none)
+    | some so =>
+      ({ g with objects := setKey dst { so with oneBased := false } g.objects }, .ok { etag := (specVals H so).etag } none none)
   | .copyRange src dst start stop =>
     match lookup src g.objects with
     | none => (g, .err .noSuchKey)
     | some so =>
-      let o : GObj := ⟨[slice so.content start stop], .single⟩
+      let o : GObj := ⟨[slice so.content start stop], .single, false⟩
       ({ g with objects := setKey dst o g.objects }, .ok { etag := (specVals H o).etag } none none)
   | .head key =>
     match lookup key g.objects with
@@ -177,13 +190,14 @@ def lower (H : Hashes) (g : GState) : BOp → Op
 spec values. -/
 def absObj (H : Hashes) (g : GObj) : Obj :=
   { vals := specVals H g, ctype := specCType g, size := g.content.length,
-    parts := g.parts.map fun b => (digestsOf H b).partMeta }
+    parts := g.parts.map (fun b => (digestsOf H b).partMeta), oneBased := g.oneBased }
 
 def absUpload (H : Hashes) (u : GUpload) : Upload :=
   { key := u.key, ctype := u.ctype, parts := u.parts.map fun p => (p.1, (digestsOf H p.2).partMeta) }
 
 def absState (H : Hashes) (g : GState) : State :=
-  { objects := g.objects.map fun p => (p.1, absObj H p.2),
+  { versioned := g.versioned
+    objects := g.objects.map fun p => (p.1, absObj H p.2),
     uploads := g.uploads.map fun p => (p.1, absUpload H p.2) }
 
 /-- Run a history on the code model and on the spec side by side. -/
@@ -193,5 +207,15 @@ def runBoth (H : Hashes) (strict : Bool) : State × GState → List BOp → List
     let r := step H strict s (lower H g bop)
     let q := gstep H strict g bop
     (r.2, q.2) :: runBoth H strict (r.1, q.1) rest
+
+/-- The stored state and the contents after a history. -/
+def finalBoth (H : Hashes) (strict : Bool) : State × GState → List BOp → State × GState
+  | sg, [] => sg
+  | (s, g), bop :: rest =>
+    finalBoth H strict ((step H strict s (lower H g bop)).1, (gstep H strict g bop).1) rest
+
+def Out.isOk : Out → Bool
+  | .ok .. => true
+  | .err _ => false
 
 end Pithos.ObjSums
